@@ -428,13 +428,17 @@ theorem ModOK.sync_empty {cfg : Cfg} {w : Nat} {nr : Bool} {p : Pair} {g : Ghost
   have : g.pend = g.recs.length := by rw [he] at h1 ⊢; simpa using h1
   exact hm.j2 hn this
 
+def isInc : LOp → Bool
+  | .syncInc _ => true
+  | _ => false
+
 /-- one local operation preserves the model invariant, provided the operation is well formed and
     respects the documented precondition of `sync(s,a,s1)`; the `visitSum == 1` branch needs either the
     repaired code (`n1Clear`) or a reset-free past over initialised storage -/
 theorem ModOK.step (cfg : Cfg) (hg : cfg.sparseGeneric = false) (w : Nat) (nr : Bool) (p : Pair) (g : Ghost) (op : LOp)
     (he : ExpOK w p g.recs) (hm : ModOK cfg w nr p g)
     (hwf : opWF w op = true) (hpre : incPreOK g op = true)
-    (hc : cfg.n1Clear = true ∨ (nr = true ∧ cfg.ctorJunk = false)) :
+    (hc : cfg.n1Clear = true ∨ (nr = true ∧ cfg.ctorJunk = false) ∨ g.recs.length ≠ 1 ∨ isInc op = false) :
     ModOK cfg w (nr && !isReset op) (p.step cfg op) (g.step op) := by
   -- effective full sync, shared by `sync`, the periodic branch of `syncInc`, `ctor true`
   have full : ∀ (p' : Pair), ExpOK w p' g.recs → g.recs ≠ [] → ∀ g' : Ghost, g'.recs = g.recs → g'.snap = g.recs → g'.pend = 0 →
@@ -549,7 +553,7 @@ theorem ModOK.step (cfg : Cfg) (hg : cfg.sparseGeneric = false) (w : Nat) (nr : 
               by_cases d : s1 = i
               · subst d; simp [hs1]
               · simp [d]
-            · rcases hc with hc | ⟨hnr, hj⟩
+            · rcases hc with hc | ⟨hnr, hj⟩ | hc | hc
               · exact absurd hc hcl
               · have hsnap : g.snap = [] := hm.j2 hnr (by rw [hp1, hrec]; rfl)
                 obtain ⟨hrow, _⟩ := hm.dflt hj hsnap
@@ -561,6 +565,8 @@ theorem ModOK.step (cfg : Cfg) (hg : cfg.sparseGeneric = false) (w : Nat) (nr : 
                   · subst d2; simp [hi]
                   · have : ¬ i = p.dfl := fun x => d2 x.symm
                     simp [d2, this]
+              · exact absurd (by rw [hrec]; rfl) hc
+              · simp [isInc] at hc
         · rw [incSync_ge2 cfg p s1 hper h1]
           have hyne : ys ≠ [] := by
             intro h; apply h1; rw [hN, h]; rfl
@@ -616,10 +622,10 @@ theorem Inv.run (cfg : Cfg) (hg : cfg.sparseGeneric = false) (w : Nat) (h : List
     intro nr p g he hm hwf hpre hc
     simp only [wfAll, List.all_cons, Bool.and_eq_true] at hwf
     simp only [incPre, Bool.and_eq_true] at hpre
-    have hc1 : cfg.n1Clear = true ∨ (nr = true ∧ cfg.ctorJunk = false) := by
+    have hc1 : cfg.n1Clear = true ∨ (nr = true ∧ cfg.ctorJunk = false) ∨ g.recs.length ≠ 1 ∨ isInc op = false := by
       rcases hc with h | ⟨a, _, c⟩
       · exact Or.inl h
-      · exact Or.inr ⟨a, c⟩
+      · exact Or.inr (Or.inl ⟨a, c⟩)
     have hm' := ModOK.step cfg hg w nr p g op he hm hwf.1 hpre.1 hc1
     have he' := ExpOK.step cfg w p g op he
     have hc2 : cfg.n1Clear = true ∨ ((nr && !isReset op) = true ∧ noReset t = true ∧ cfg.ctorJunk = false) := by
@@ -633,6 +639,35 @@ theorem Inv.run (cfg : Cfg) (hg : cfg.sparseGeneric = false) (w : Nat) (h : List
       simp [noReset, Bool.and_assoc]
     rw [← hb]
     exact this
+
+/-- **incremental_sync_invariant** (the step DESIGN Appendix C plans): a pair whose row is the empirical
+    frequencies of its (non-empty) data `recs` receives one record `(s1, r)` and then `sync(s,a,s1)`: the row
+    is the empirical frequencies of `recs ++ [(s1,r)]` and the reward its mean — for every value of the resync
+    `period`, for the code as written (no hypothesis on the first-visit branch: it is not reached). -/
+theorem incremental_sync_invariant (cfg : Cfg) (hg : cfg.sparseGeneric = false) (w : Nat) (p : Pair)
+    (recs : List (Nat × Rat)) (s1 : Nat) (r : Rat) (hs1 : s1 < w) (hne : recs ≠ [])
+    (he : ExpOK w p recs) (hlen : p.row.length = w)
+    (hrow : ∀ i, i < w → nthQ p.row i = freqOf recs i) (hrew : RewOK cfg p.rew (meanOf recs)) :
+    let q := (p.step cfg (.record s1 r)).step cfg (.syncInc s1)
+    (∀ i, i < w → nthQ q.row i = freqOf (recs ++ [(s1, r)]) i) ∧ RewOK cfg q.rew (meanOf (recs ++ [(s1, r)])) := by
+  intro q
+  let g : Ghost := { recs := recs, snap := recs, pend := 0 }
+  have hm : ModOK cfg w false p g :=
+    ⟨hlen, fun _ => Or.inr rfl, fun h => by simp [g] at h, fun _ => hrow, fun _ => hrew,
+     fun _ h => absurd h hne, fun h => by simp at h, fun h => by simp at h⟩
+  have hl : recs.length ≠ 0 := by simpa using hne
+  have h1 := ModOK.step cfg hg w false p g (.record s1 r) he hm (by simp [opWF, hs1]) rfl
+    (Or.inr (Or.inr (Or.inr rfl)))
+  have e1 := ExpOK.step cfg w p g (.record s1 r) he
+  have h2 := ModOK.step cfg hg w _ _ _ (.syncInc s1) e1 h1 (by simp [opWF, hs1])
+    (by simp [incPreOK, Ghost.step, g]) (Or.inr (Or.inr (Or.inl (by simp [Ghost.step, g]; omega))))
+  have hsn : ((g.step (.record s1 r)).step (.syncInc s1)).snap = recs ++ [(s1, r)] := by
+    simp [Ghost.step, g]
+  have hne' : ((g.step (.record s1 r)).step (.syncInc s1)).snap ≠ [] := by rw [hsn]; simp
+  have a := h2.mRow hne'
+  have b := h2.mRew hne'
+  rw [hsn] at a b
+  exact ⟨a, b⟩
 
 /-- **model_mirrors_history** (one pair; `incremental_sync_invariant` is its third clause).
     For every local history that is well formed and in which every `sync(s,a,s1)` respects the documented
